@@ -120,11 +120,12 @@ def run_cfg(jitlib, spec, backend, prog, cfg, tmpdir, max_steps):
         jitter.set_trace_log(False, False, False)
     if cfg.get("warm"):
         # first run to translate everything, then restore the initial state
-        out0 = jitlib.run(spec, backend, prog, max_steps=max_steps, jitter=jitter)
+        out0 = jitlib.run(spec, backend, prog, max_steps=max_steps, jitter=jitter, int_handler=True)
         if out0.budget:
             return out0, None, 0
         reset_state(jitter, prog, spec)
         jitter.exec_cb = None
+        cfg["_first"] = out0
     if cfg.get("traced"):
         jitter.set_trace_log(True, False, False)
         path = os.path.join(tmpdir, "trace.log")
@@ -141,6 +142,10 @@ def rerun(jitlib, spec, backend, prog, jitter, max_steps, cfg):
         # handlers are already installed by the first run: just run again
         out = jitlib.Outcome()
         state = dict(steps=0)
+        n_first = len(cfg["_first"].int_log)
+        # the scratch register formula of the handler depends on the number of logged calls: restart it
+        del cfg["_first"].int_log[:]
+        n_first = 0
 
         def count(j):
             state["steps"] += 1
@@ -155,8 +160,11 @@ def rerun(jitlib, spec, backend, prog, jitter, max_steps, cfg):
             out.raised = type(exc).__name__
         jitlib.snapshot(jitter, spec, out)
         out.steps = state["steps"]
+        # the handlers installed by the first run keep logging into its outcome
+        first = cfg["_first"]
+        out.int_log = first.int_log[n_first:]
         return out
-    return jitlib.run(spec, backend, prog, max_steps=max_steps, jitter=jitter)
+    return jitlib.run(spec, backend, prog, max_steps=max_steps, jitter=jitter, int_handler=True)
 
 
 def run_shard(params, rec):
@@ -174,7 +182,7 @@ def run_shard(params, rec):
     thorough = params["tier"] == "thorough"
     for i in range(params["n"]):
         prog = jitlib.make_prog(spec, rng, pool, rng.randrange(4, 12), with_loop=True,
-                                fault_bias=rng.choice([0.0, 0.0, 0.0, 0.1]))
+                                fault_bias=rng.choice([0.0, 0.0, 0.0, 0.1]), soft_int=rng.random() < 0.4)
         rec.ev()
         # reference: single-step configuration; its address sequence is read from the same
         # instruction log as the other configurations (exec_cb sees blocks, and a delay-slot
@@ -183,7 +191,7 @@ def run_shard(params, rec):
         refj.set_trace_log(True, False, False)
         path = os.path.join(tmpdir, "ref.log")
         with FdCapture(path):
-            ref = jitlib.run(spec, backend, prog, max_steps=600, trace=True, jitter=refj)
+            ref = jitlib.run(spec, backend, prog, max_steps=600, trace=True, jitter=refj, int_handler=True)
         if ref.raised == "CalledProcessError":
             rec.count("unsupported_by_backend")   # the C compiler rejected a generated block
             continue
@@ -222,8 +230,11 @@ def run_shard(params, rec):
                 if cache_len > 0:      # blocks translated minus blocks still cached = evictions
                     rec.count("bounded_cache_runs_with_eviction_pressure")
                     rec.count("evictions_observed", cache_len)
+            cfg.pop("_first", None)
             d = jitlib.diff_outcomes(ref, out, spec, ignore_regs=(spec.pc_name,))
             rec.count("states_compared")
+            if ref.int_log:
+                rec.count("states_compared_with_interrupt_handler_calls")
             cls = "maxline=%s maxexec=%s%s%s%s" % (
                 "1" if cfg["maxline"] == 1 else ">1", "0" if cfg["maxexec"] == 0 else ">0",
                 " warm" if cfg["warm"] else "", " bounded-cache" if cfg["cache"] else "",
